@@ -1555,10 +1555,11 @@ class _CallMixin:
             # the interpreter tracks container contents only for heap objects; losing this mutation would be unsound
             raise AnalysisError("in-place %s() of a container value the analysis does not track (%r, line %s)" % (
                 name, recv, getattr(node, "lineno", "?")))
-        if isinstance(recv, Const) and all(isinstance(a, Const) for a in args) and not kwargs \
-                and name in STR_METHODS and isinstance(recv.v, (str, bytes, int, tuple)) and name != "format":
+        if isinstance(recv, Const) and all(isinstance(a, Const) for a in args) and all(isinstance(a, Const) for a in kwargs.values()) \
+                and (name in STR_METHODS or name in ("to_bytes", "bit_length", "bit_count")) and isinstance(recv.v, (str, bytes, int, tuple)) \
+                and name != "format" and not isinstance(recv.v, bool):
             try:
-                r = getattr(recv.v, name)(*[a.v for a in args])
+                r = getattr(recv.v, name)(*[a.v for a in args], **{k_: a.v for k_, a in kwargs.items()})
                 if isinstance(r, (str, bytes, int, bool, tuple, type(None))):
                     return Const(r)
                 if isinstance(r, list):
@@ -3922,6 +3923,26 @@ class _ExtMixin:
             for nm in (nf, ns, nx):
                 fr.env.pop(nm, None)
 
+    def x_itertools_starmap(self, a, k, n):
+        """starmap(f, xs) is (f(*x) for x in xs)"""
+        if len(a) != 2 or k:
+            return None
+        fr = self.frames[-1]
+        uid = self.next_loop
+        nf, ns, nx = "<smapf%d>" % uid, "<smapsrc%d>" % uid, "<smapx%d>" % uid
+        fr.env[nf], fr.env[ns] = a[0], a[1]
+        call = ast.Call(func=ast.Name(id=nf, ctx=ast.Load()), args=[ast.Starred(value=ast.Name(id=nx, ctx=ast.Load()), ctx=ast.Load())], keywords=[])
+        gen = ast.comprehension(target=ast.Name(id=nx, ctx=ast.Store()), iter=ast.Name(id=ns, ctx=ast.Load()), ifs=[], is_async=0)
+        node = ast.GeneratorExp(elt=call, generators=[gen])
+        if n is not None:
+            ast.copy_location(node, n)
+        ast.fix_missing_locations(node)
+        try:
+            return self.ev(node)
+        finally:
+            for nm in (nf, ns, nx):
+                fr.env.pop(nm, None)
+
     def x_filter(self, a, k, n):
         if len(a) == 2 and self.seq_items(a[1], n) is None and not isinstance(self.simp(a[1]), Undef):
             return self.synth_comp(a[0], a[1], n, True)
@@ -4333,6 +4354,30 @@ _orig_st_For = _LoopMixin.st_For
 
 def _st_For_gen(self, st):
     it = self.simp(self.drain(self.ev(st.iter)))
+    if isinstance(it, Op) and it.op in ("call:itertools.takewhile", "call:itertools.starmap") and len(it.args) == 2 and not st.orelse:
+        # for x in takewhile(pred, xs): body   is   for x in xs: if not pred(x): break; body
+        # for r in starmap(f, xs): body        is   for <a> in xs: r = f(*<a>); body
+        fr = self.frames[-1]
+        k_ = getattr(st, "lineno", 0)
+        fn_name, src_name, tmp = "<itf%d>" % k_, "<its%d>" % k_, "<ita%d>" % k_
+        fr.env[fn_name], fr.env[src_name] = it.args[0], it.args[1]
+        L_, S_ = ast.Load(), ast.Store()
+        if it.op == "call:itertools.takewhile":
+            test = ast.UnaryOp(op=ast.Not(), operand=ast.Call(func=ast.Name(id=fn_name, ctx=L_), args=[st.target_load if hasattr(st, "target_load") else
+                                                                                                    _target_as_load(st.target)], keywords=[]))
+            body = [ast.If(test=test, body=[ast.Break()], orelse=[])] + list(st.body)
+            loop = ast.For(target=st.target, iter=ast.Name(id=src_name, ctx=L_), body=body, orelse=[])
+        else:
+            call = ast.Call(func=ast.Name(id=fn_name, ctx=L_), args=[ast.Starred(value=ast.Name(id=tmp, ctx=L_), ctx=L_)], keywords=[])
+            body = [ast.Assign(targets=[st.target], value=call)] + list(st.body)
+            loop = ast.For(target=ast.Name(id=tmp, ctx=S_), iter=ast.Name(id=src_name, ctx=L_), body=body, orelse=[])
+        ast.copy_location(loop, st)
+        ast.fix_missing_locations(loop)
+        try:
+            return _st_For_gen(self, loop)
+        finally:
+            for nm in (fn_name, src_name, tmp):
+                fr.env.pop(nm, None)
     if isinstance(it, GenV):
         fr = self.frames[-1]
         ctl = LoopCtl()
@@ -4359,6 +4404,15 @@ def _st_For_gen(self, st):
         return
     # re-use the evaluated iterable (avoid evaluating the expression twice)
     return _orig_st_For_with(self, st, it)
+
+
+def _target_as_load(t):
+    """the loop target as an expression (to hand the current element to a predicate)"""
+    if isinstance(t, ast.Name):
+        return ast.Name(id=t.id, ctx=ast.Load())
+    if isinstance(t, (ast.Tuple, ast.List)):
+        return ast.Tuple(elts=[_target_as_load(e) for e in t.elts], ctx=ast.Load())
+    raise AnalysisError("takewhile over a loop target that is not a name / tuple of names")
 
 
 def _const_leaves(t):
